@@ -34,6 +34,7 @@ int  verif_script_cycle = 0;    /* 1: wrap around instead of under-running */
 long verif_underrun_d = 0, verif_underrun_i = 0;
 long verif_n_init = 0, verif_n_double = 0, verif_n_int = 0;
 long verif_bad_bound = 0;       /* rand_int called with bound <= 0 */
+extern long verif_bad_int, verif_bad_double;
 
 static void log_draw(int kind, int bound, double value) {
     if (!verif_log_enabled) return;
@@ -67,6 +68,7 @@ double verif_rand_double(rng_t *rng) {
         if (verif_mode == 1) verif_underrun_d++;
         v = rand_double(rng);
     }
+    if (!(v >= 0.0 && v < 1.0)) verif_bad_double++;
     log_draw(1, 0, v);
     return v;
 }
@@ -84,8 +86,52 @@ int verif_rand_int(rng_t *rng, int stop) {
         if (verif_mode == 1) verif_underrun_i++;
         v = rand_int(rng, stop);
     }
+    if (v < 0 || v >= stop) verif_bad_int++;
     log_draw(2, stop, (double)v);
     return v;
+}
+
+/* ------------------------------------------------------- raw 32-bit seam */
+/* random.c is additionally compiled with -Dpcg32_random_r=verif_raw32 and
+ * -Dpcg32_boundedrand_r=verif_raw_bounded, so the repository's rand_double /
+ * rand_int compute their results from raw words the simulator can script
+ * (0, 0xFFFFFFFF, ...): values PCG emits with probability 2^-32 per draw. */
+
+int  verif_raw_mode = 0;        /* 0 real PCG words, 1 scripted raw words */
+uint32_t *verif_raw_script = NULL; long verif_raw_len = 0, verif_raw_pos = 0;
+int  verif_raw_cycle = 0;
+long verif_n_raw = 0, verif_raw_underrun = 0;
+long verif_bad_int = 0;         /* rand_int returned a value outside [0, bound) */
+long verif_bad_double = 0;      /* rand_double returned a value outside [0, 1) */
+
+uint32_t verif_raw32(pcg32_random_t *rng) {
+    verif_n_raw++;
+    if (verif_raw_mode == 1 && verif_raw_len > 0 && (verif_raw_pos < verif_raw_len || verif_raw_cycle)) {
+        uint32_t v = verif_raw_script[verif_raw_pos % verif_raw_len];
+        verif_raw_pos++;
+        return v;
+    }
+    if (verif_raw_mode == 1) verif_raw_underrun++;
+    return pcg32_random_r(rng);
+}
+
+uint32_t verif_raw_bounded(pcg32_random_t *rng, uint32_t bound) {
+    if (verif_raw_mode != 1) return pcg32_boundedrand_r(rng, bound);
+    /* PCG's own rejection loop, fed from the scripted words (bounded so a cycling script cannot spin) */
+    uint32_t threshold = -bound % bound;
+    int tries;
+    for (tries = 0; tries < 64; tries++) {
+        uint32_t r = verif_raw32(rng);
+        if (r >= threshold) return r % bound;
+    }
+    verif_raw_underrun++;           /* the script never passes the rejection test: fall through to the real generator */
+    return pcg32_boundedrand_r(rng, bound);
+}
+
+void verif_set_raw_script(const uint32_t *v, long n, int cycle) {
+    free(verif_raw_script); verif_raw_script = NULL;
+    if (n > 0) { verif_raw_script = (uint32_t*)malloc(n * sizeof(uint32_t)); memcpy(verif_raw_script, v, n * sizeof(uint32_t)); }
+    verif_raw_len = n; verif_raw_pos = 0; verif_raw_cycle = cycle; verif_raw_mode = n > 0 ? 1 : 0;
 }
 
 /* ---------------------------------------------------------------- clock */
@@ -235,6 +281,8 @@ void verif_reset(void) {
     verif_underrun_d = verif_underrun_i = 0;
     verif_n_init = verif_n_double = verif_n_int = 0; verif_bad_bound = 0;
     verif_clock_len = 0; verif_clock_reads = 0;
+    verif_raw_mode = 0; verif_raw_len = verif_raw_pos = 0; verif_raw_cycle = 0;
+    verif_n_raw = verif_raw_underrun = 0; verif_bad_int = verif_bad_double = 0;
     verif_allocs = verif_frees = verif_reallocs = 0;
     verif_bytes = 0; verif_highwater = verif_live_bytes;
     verif_canary_bad = verif_bad_free = verif_zero_allocs = verif_neg_allocs = 0;
